@@ -8,6 +8,8 @@ by the schema's reference encoder/decoder (written from the RFC layouts, one-sid
 from __future__ import annotations
 
 import itertools
+import json
+import os
 import traceback
 
 import dns.exception
@@ -268,7 +270,64 @@ def rollback_tasks():
     return out
 
 
+# ------------------------------------------------------------------ process history: which class decodes a type
+_PH_SCRIPT = r"""
+import json, sys
+sys.path.insert(0, sys.argv[1])
+import dns.rdata, dns.rdataclass, dns.rdatatype
+order = sys.argv[2]
+if order == "load_all_types":
+    dns.rdata.load_all_types()
+elif order == "load_all_types-dynamic-kept":
+    dns.rdata.load_all_types(False)
+elif order == "ANY-first":
+    for t in dns.rdatatype.RdataType:
+        dns.rdata.get_rdata_class(dns.rdataclass.ANY, t)
+out = {}
+for cls in (dns.rdataclass.IN, dns.rdataclass.CH):
+    for t in dns.rdatatype.RdataType:
+        c = dns.rdata.get_rdata_class(cls, t)
+        out["%d/%d" % (cls, t)] = c.__module__ + "." + c.__name__
+print(json.dumps(out))
+"""
+PH_ORDERS = ["load_all_types", "load_all_types-dynamic-kept", "ANY-first"]
+
+
+def _ph_run(order):
+    import subprocess
+    import sys
+    from .. import core
+    r = subprocess.run([sys.executable, "-c", _PH_SCRIPT, core.REPO, order], capture_output=True, text=True,
+                       env=dict(os.environ, PYTHONHASHSEED="0"), timeout=300)
+    if r.returncode != 0:
+        return None, r.stderr[-400:]
+    return json.loads(r.stdout.strip().splitlines()[-1]), ""
+
+
+def process_history_case(case):
+    """A fresh interpreter that first calls dns.rdata.load_all_types() (or looks every type up in
+    class ANY) must afterwards decode every (class, type) with the same implementation class as a
+    fresh interpreter that does neither: which codec a record gets may not depend on what the
+    process did before."""
+    base, err = _ph_run("none")
+    if base is None:
+        return [("C02/process-history/none/crash", err)]
+    got, err = _ph_run(case["order"])
+    if got is None:
+        return [("C02/process-history/%s/crash" % case["order"], err)]
+    diff = sorted(k for k in base if got.get(k) != base[k])
+    if not diff:
+        return []
+    k = diff[0]
+    kind = "generic-instead-of-implementation" if got.get(k, "").endswith("GenericRdata") else "class-differs"
+    return [("C02/process-history/%s/%s" % (case["order"], kind),
+             "after %s, %d (class/type) pairs decode with another class than in a fresh process, e.g. %s: %s instead of %s"
+             % (case["order"], len(diff), k, got.get(k), base[k]))]
+
+
 def recheck(case):
+    if case.get("mode") == "process-history":
+        return process_history_case(case)
     if case.get("mode") == "renderer-rollback":
         return rollback_case(case)[0]
     _, probs = run_case(case)
@@ -454,6 +513,14 @@ def run(ctx):
                "fixed layout, bad label type/pointer); value-level restrictions are 'soft' (either verdict allowed)")
     ctx.assume("names below the origin are spelled with the origin's exact case (RFC 4343: relativisation is case-insensitive)")
     ctx.assume("TSIG/TKEY algorithm names are never relative (meta records carry absolute names)")
+    for order in PH_ORDERS:
+        case = {"mode": "process-history", "order": order}
+        res = process_history_case(case)
+        ctx.count("evaluations")
+        ctx.count("process_history_orders")
+        ctx.outcome("process-history:" + ("same-classes" if not res else "differs"))
+        for sig, what in res:
+            ctx.violation(sig, what, case)
     cov = R.coverage()
     ctx.extra["types_implemented"] = cov["implemented"]
     ctx.extra["types_covered"] = cov["covered"]
